@@ -341,14 +341,15 @@ def run_case(keys, lay, faults, flags, entry):
     return "tolerated-correctly", None
 
 
-def run_large_case(flags, entry):
+def run_large_case(flags, entry, long_dim=False):
     """an array with more than 32767 entries (3 dimensions, none of them long): some rows missing, one row with an
     unknown item - every present entry is placed under its labels, under any admissible flag combination"""
     from flodym import Dimension, DimensionSet, FlodymArray
 
-    case = dict(large=True, flags=list(flags), entry=entry)
-    ds = DimensionSet(dim_list=[Dimension(name="Xdim", letter="x", items=list(range(1000, 1041)), dtype=int), Dimension(name="Ydim", letter="y", items=[f"y{i}" for i in range(30)]), Dimension(name="Zdim", letter="z", items=[f"z{i}" for i in range(29)])])
-    v = np.arange(float(41 * 30 * 29)).reshape(41, 30, 29) * 0.5 + 1.0
+    case = dict(large=True, flags=list(flags), entry=entry, long_dim=long_dim)
+    shp = (2, 40000, 1) if long_dim else (41, 30, 29)  # long_dim: ONE dimension with more than 32767 items
+    ds = DimensionSet(dim_list=[Dimension(name="Xdim", letter="x", items=list(range(1000, 1000 + shp[0])), dtype=int), Dimension(name="Ydim", letter="y", items=[f"y{i}" for i in range(shp[1])]), Dimension(name="Zdim", letter="z", items=[f"z{i}" for i in range(shp[2])])])
+    v = np.arange(float(shp[0] * shp[1] * shp[2])).reshape(shp) * 0.5 + 1.0
     df = FlodymArray(dims=ds, values=v).to_df(index=False)
     df = df.iloc[list(range(11, len(df))) + list(range(11))].reset_index(drop=True)
     want = v.copy()
@@ -367,10 +368,10 @@ def run_large_case(flags, entry):
         st, got = attempt(lambda: (tgt.set_values_from_df(df, allow_missing_values=flags[0], allow_extra_values=flags[1]), tgt)[1])
     tags = dict(entry=entry, header="names", wide=False, faults="large", flags=f"{int(flags[0])}{int(flags[1])}")
     if st == "raised":
-        return "fail", dict(case=case, tags=dict(tags, kind="refused"), what=f"41 x 30 x 29 array ({v.size} entries) via {entry}, flags {flags}: refused although the flags cover the data: {got}")
+        return "fail", dict(case=case, tags=dict(tags, kind="refused"), what=f"{shp} array ({v.size} entries) via {entry}, flags {flags}: refused although the flags cover the data: {got}")
     if got.values.shape != want.shape or not np.array_equal(got.values, want):
         bad = np.argwhere(got.values != want)
-        return "fail", dict(case=case, tags=dict(tags, kind="wrong-values"), what=f"41 x 30 x 29 array ({v.size} entries) via {entry}, flags {flags}: {len(bad)} entries differ from the rows carrying their labels, first {tuple(int(i) for i in bad[0])}: {got.values[tuple(bad[0])]!r} instead of {want[tuple(bad[0])]!r}")
+        return "fail", dict(case=case, tags=dict(tags, kind="wrong-values"), what=f"{shp} array ({v.size} entries) via {entry}, flags {flags}: {len(bad)} entries differ from the rows carrying their labels, first {tuple(int(i) for i in bad[0])}: {got.values[tuple(bad[0])]!r} instead of {want[tuple(bad[0])]!r}")
     return "tolerated-correctly", None
 
 
@@ -396,8 +397,8 @@ def run_unit(u):
     if u["kind"] == "large":
         res = dict(evals=0, nontrivial=0, outcomes={}, fails=[], samples=[])
         for flags in FLAGS:
-            for entry in ("from_df", "set_values_from_df"):
-                oc, f = run_large_case(flags, entry)
+            for entry, long_dim in (("from_df", False), ("set_values_from_df", False), ("from_df", True)):
+                oc, f = run_large_case(flags, entry, long_dim)
                 res["evals"] += 1
                 res["nontrivial"] += 1
                 res["outcomes"][oc] = res["outcomes"].get(oc, 0) + 1
@@ -438,7 +439,7 @@ def run_unit(u):
 
 def replay(case):
     if case.get("large"):
-        oc, f = run_large_case(tuple(case["flags"]), case["entry"])
+        oc, f = run_large_case(tuple(case["flags"]), case["entry"], case.get("long_dim", False))
         return [f] if f else []
     oc, f = run_case(case["keys"], case["layout"], [tuple(x) for x in case["faults"]], tuple(case["flags"]), case["entry"])
     return [f] if f else []
